@@ -14,11 +14,12 @@ let parse_exchange (t : string) : exch3 =
         | 'x' -> FCloseDelimited, []
         | _ -> FBodiless, [] in
       let out =
-        if oc = "ok" then OOk else if oc = "ref" then ORefused
+        if oc = "ok" then OOk else if oc = "ref" || oc = "dns" then ORefused
+        else if oc = "tmo" then OTimeout
         else if String.length oc > 3 && String.sub oc 0 3 = "cut" then OCut (nat_of_int (int_of_string (String.sub oc 3 (String.length oc - 3))))
         else if String.length oc > 3 && String.sub oc 0 3 = "gar" then OGarbage
         else failwith "bad outcome" in
-      { x_id = n_of_int idn; x_head = (m = "H"); x_reqclose = (rc = "1"); x_out = out;
+      { x_id = n_of_int idn; x_head = (m = "H"); x_connect = (m = "C"); x_reqclose = (rc = "1"); x_out = out;
         x_resp = { q_status = n_of_dec st; q_framing = framing; q_body = body; q_sizes = sizes;
                    q_close = (sc = "1"); q_headlen = nat_of_int (int_of_string h) };
         x_rechunk = [] }
@@ -28,17 +29,18 @@ let parse_state (s : string) : pstate =
   if s = "ok" then PComplete else if s = "incomplete" then PIncomplete
   else if s = "err-timeout" || s = "err-head-timeout" then PStarved else PMalformed
 
-let parse_resp (t : string) : oresp option =
+let parse_resp (t : string) : rawresp option =
   match String.split_on_char ':' t with
-  | ["R"; st; xex; stamp; nw; _fr; body; state] ->
+  | ["R"; st; xex; stamp; warn; _fr; body; state] ->
       let id = if xex = "-" || String.contains xex '.' then None else Some (n_of_dec xex) in
       let sm =
         if stamp = "-" then None
         else match String.split_on_char 'w' stamp with
           | [a; b] -> Some (n_of_dec a, b <> "0")
           | _ -> None in
-      Some { o_status = n_of_dec st; o_id = id; o_warning = (nw <> "0"); o_resmod = sm;
-             o_body = chars_of_hex ("x" ^ body); o_state = parse_state state }
+      let ws = if warn = "-" then [] else List.map (fun h -> chars_of_hex ("x" ^ h)) (String.split_on_char ',' warn) in
+      Some { w_status = n_of_dec st; w_id = id; w_warnings = ws; w_resmod = sm;
+             w_rbody = chars_of_hex ("x" ^ body); w_state = parse_state state }
   | _ -> None
 
 let pr_state = function PComplete -> "complete" | PIncomplete -> "incomplete" | PStarved -> "starved" | PMalformed -> "malformed"
@@ -65,14 +67,27 @@ let judge _name ins outs =
       else if List.exists (fun t -> has_prefix t "BADCASE" || has_prefix t "ENV" || has_prefix t "HARNESSPANIC") outs then
         VDisagree ("harness:" ^ String.concat "," outs)
       else begin
-        let rs = List.filter_map parse_resp outs in
+        let raws = List.filter_map parse_resp outs in
+        let rs = List.map observe raws in
         let fin = match List.find_opt (fun t -> has_prefix t "END:") outs with
           | Some t -> String.sub t 4 (String.length t - 4) | None -> "missing" in
-        let obs = (rs, fin = "closed") in
+        let obs = (rs, fin = "closed" || fin = "tunnel") in
+        (* the answer read through an established tunnel must be the origin's, untouched *)
+        let tunnel_bad =
+          match List.find_opt (fun t -> has_prefix t "T:") outs, List.rev (served3 es) with
+          | Some t, last :: _ when last.x_connect && last.x_out = OOk ->
+              let want = Printf.sprintf "T:%s:%s:%s:ok" (dec_of_n last.x_resp.q_status) (dec_of_n last.x_id)
+                  (let h = hex_of_chars last.x_resp.q_body in String.sub h 1 (String.length h - 1)) in
+              if t = want then None else Some (Printf.sprintf "want=%s got=%s" want t)
+          | Some t, _ -> Some ("unexpected " ^ t)
+          | None, _ ->
+              if fin = "tunnel" then Some "tunnel-without-answer" else None in
         let (want_p, want_c) = spec_view es in
         let want = List.map project want_p in
         let nontrivial = List.exists (fun e -> e.x_out <> OOk) es in
-        if c03_ok es obs && (fin = "open" || fin = "closed") then begin
+        if tunnel_bad <> None && c03_ok_raw es (raws, snd obs) then
+          VPropfail ("connect_tunnel_relays", match tunnel_bad with Some d -> d | None -> "")
+        else if c03_ok_raw es (raws, snd obs) && (fin = "open" || fin = "closed" || fin = "tunnel") then begin
           if not (List.for_all wf3 es) then VOk false
           else
             let (mo, mc) = model_obs true es in
@@ -87,12 +102,19 @@ let judge _name ins outs =
             | [], g :: _ -> (i, None, Some g)
             | [], [] -> (i, None, None) in
           let (i, w, g) = first 0 want rs in
-          let detail = Printf.sprintf "response=%d want=%s got=%s end=%s want-closed=%b" i
+          let detail = Printf.sprintf "response=%d want=%s got=%s end=%s want-closed=%b%s" i
               (match w with Some w -> pr_resp w | None -> "none")
-              (match g with Some g -> pr_resp g | None -> "none") fin want_c in
+              (match g with Some g -> pr_resp g | None -> "none") fin want_c
+              (match List.nth_opt raws i with
+               | Some r when r.w_warnings <> [] ->
+                   " warning=" ^ String.concat "|" (List.map (fun v -> String.escaped (string_of_chars v)) r.w_warnings)
+               | _ -> "") in
           let clause =
             match w, g with
             | Some w, Some g when not (is_prefix g.o_body w.o_body) -> "no_cross_response_bytes"
+            | Some w, Some g when w.o_status = n_of_int 502 && g.o_status = w.o_status && not g.o_warning
+                                  && (match List.nth_opt raws i with Some r -> r.w_warnings <> [] | None -> false) ->
+                "warning_wellformed"
             | Some w, Some g when w.o_status = n_of_int 502 && w.o_warning
                                   && (g.o_status <> w.o_status || not g.o_warning || g.o_resmod <> w.o_resmod) ->
                 "pre_head_failure_is_502_via_resmod"
